@@ -47,7 +47,14 @@ def parse_summary(o):
 def text(rng, cp):
     base = SAMPLE[cp] + "aZ 9"
     n = rng.choice([0, 1, 2, 3, 4, 5, 6, 7, 8, 9, 13])
-    return "".join(rng.choice(base) for _ in range(n))
+    s = "".join(rng.choice(base) for _ in range(n))
+    # text whose stored bytes begin like a byte order mark (EF BB BF, FF FE, FE FF) must come back unchanged
+    if rng.random() < 0.12:
+        if cp == 65001:
+            s = "\ufeff" + s
+        elif cp in (1252, 28591):
+            s = rng.choice(["\u00ff\u00fe", "\u00fe\u00ff", "\u00ef\u00bb\u00bf"]) + s
+    return s
 
 
 def gen_cases(rng, tier, info):
@@ -78,7 +85,8 @@ def gen_cases(rng, tier, info):
             elif r < 0.86:
                 cmds.append("(sum_set words %d)" % rng.choice([0, 2, -1, 2**31 - 1, -2**31]))
             elif r < 0.93:
-                cmds.append("(sum_set ctime %d)" % rng.choice([0, 1489862796000000000, -14182980000000000, 10**18 + 12345600, 1, 199, -1]))
+                cmds.append("(sum_set ctime %d)" % rng.choice([0, 1489862796000000000, -14182980000000000, 10**18 + 12345600, 1, 199, -1,
+                                                                      -300000000, -14182979875000000, -1700000000, -999999900, -11644473599500000000, 1500000000]))
             else:
                 cmds.append("(sum_set uuid (%s))" % " ".join(str(rng.randint(0, 255)) for _ in range(16)))
             cmds.append("(sum_get)")
@@ -86,6 +94,14 @@ def gen_cases(rng, tier, info):
                 cmds += ["(reopen %s)" % rng.choice(["flush", "into_inner", "drop"]), RAW, "(sum_get)"]
         cmds += ["(reopen %s)" % ["flush", "into_inner", "drop"][j % 3], RAW, "(sum_get)"]
         cases.append(Case("sum-%d-cp%d" % (j, page), cmds))
+    # text whose stored bytes begin like a byte order mark, in every string property, across a reopen in each mode
+    for page, marks in ((65001, ["\ufeff"]), (1252, ["\u00ff\u00fe", "\u00fe\u00ff", "\u00ef\u00bb\u00bf"]), (28591, ["\u00ff\u00fe", "\u00fe\u00ff"])):
+        for k, mark in enumerate(marks):
+            cmds = ["(create %d)" % (k % 3), "(sum_set codepage %d)" % page]
+            for prop in STR_PROPS:
+                cmds.append("(sum_set %s %s)" % (prop, X.enc_str(mark + "Jane " + prop)))
+            cmds += ["(sum_get)", "(reopen %s)" % ["flush", "into_inner", "drop"][k % 3], "(raw)" if page in (65001, 20127) else "(x_raw)", "(sum_get)"]
+            cases.append(Case("bom-%d-%d" % (page, k), cmds))
     # the known finding: an architecture text containing ';'
     cases.append(Case("arch-semicolon", ["(create 0)", "(sum_set langs (1033))", "(sum_set arch %s)" % X.enc_str("x;y"), "(sum_get)"], ("known",)))
     info.update({"histories": n, "histories_per_code_page": used})
